@@ -1,4 +1,5 @@
 from datetime import datetime
+from io import BytesIO
 from pathlib import Path
 from typing import IO, List, Optional, Type, Union
 
@@ -372,7 +373,9 @@ class Tdf:
         except StopIteration:
             raise ValueError(f"Block limit reached ({len(self.entries)})")
 
-        # write new entry with the offset of that unused slot
+        self._raise_if_unused_slots_not_at_end()
+
+        # the new entry takes the offset of that unused slot
         new_entry = TdfEntry(
             type=newBlock.type,
             format=newBlock.format.value,
@@ -384,31 +387,44 @@ class Tdf:
             comment=comment,
         )
 
+        # serialise the entry and the block before touching the file, so that a
+        # block or comment that can't be encoded leaves the file as it was
+        entry_buffer = BytesIO()
+        new_entry._write(entry_buffer)
+        block_buffer = BytesIO()
+        newBlock._write(block_buffer)
+
         # replace the entry
         self.entries[unusedBlockPos] = new_entry
 
         # write new entry
         self.handler.seek(64 + 288 * unusedBlockPos, 0)
-        new_entry._write(self.handler)
+        self.handler.write(entry_buffer.getvalue())
 
         # update all unused slots's offset
         for n, entry in enumerate(
             self.entries[unusedBlockPos + 1 :], start=unusedBlockPos + 1
         ):
-            if entry.type == BlockType.unusedSlot:
-                entry.offset = new_entry.offset + new_entry.size
-                self.handler.seek(64 + 288 * n, 0)
-                entry._write(self.handler)
-            else:
-                raise IOError("All unused slots must be at the end of the file")
+            entry.offset = new_entry.offset + new_entry.size
+            self.handler.seek(64 + 288 * n, 0)
+            entry._write(self.handler)
 
         # write new block
         self.handler.seek(new_entry.offset, 0)
-        newBlock._write(self.handler)
+        self.handler.write(block_buffer.getvalue())
 
         # ensure the file is the correct size
         # and that the changes are written to disk
         self.handler.flush()
+
+    def _raise_if_unused_slots_not_at_end(self) -> None:
+        """Raise if there is a live block after an unused slot"""
+        types = [entry.type for entry in self.entries]
+        if BlockType.unusedSlot in types and any(
+            t != BlockType.unusedSlot
+            for t in types[types.index(BlockType.unusedSlot) :]
+        ):
+            raise IOError("All unused slots must be at the end of the file")
 
     @raise_if_outside_write_context
     def remove_block(self, type: Union[Block, BlockType]) -> None:
